@@ -48,6 +48,8 @@ pub mod syntax;
 mod unit;
 mod unit_parser;
 pub mod units;
+#[cfg(anything_verif)]
+mod verif_hooks;
 
 pub use self::compound::Compound;
 pub use self::db::{Constant, Db, Source};
